@@ -25,7 +25,7 @@ CLAIMS = {
   note="Trusted: Coq kernel+VM; hand model of auto.rs ReadVersion and rewind.rs (tied by sampling); harness scripted stream; hook verif_read_version. The clause 'answered identically to a single-protocol server' rests on hyper itself (R2) and is exercised end-to-end under C01 only. Genuine defect D1 (fragmented preface => HTTP/1) was found by this model and fixed in /repo (856f863). No axioms.",
   technique="Coq proof (loop invariant over arbitrary read scripts) + differential correspondence", ref="DESIGN.md 4/C08, 3.4, appendix C"),
  "C18": dict(
-  text="Coq theorems for every adapter stack of the model, every inner stream/script and every outer op sequence: delivered bytes ++ still-unread bytes is invariant (no loss, duplication, reordering, invention), the inner writer holds exactly the accepted bytes in order (also for vectored writes), per-op bounds, TokioIo filled/initialised bookkeeping, EOF/Pending/error propagation; the same law for the sniffing rewind buffer as the auto server builds it (ReadVersion over any fragmentation, then any reads through the Rewind it returns: c18_sniffed_rewind). Tied to the real TokioIo (both directions, nested), Rewind, TlsBraid, client and server Stream wrappers by per-operation differential runs against a scripted inner stream, and to the real in-process DuplexStream pipe (bare and under the wrappers) with writes / vectored writes against back-pressure, the far end drained and compared, and to the real ReadVersion + Rewind pipeline over fragmented first bytes.",
+  text="Coq theorems for every adapter stack of the model, every inner stream/script and every outer op sequence: delivered bytes ++ still-unread bytes is invariant (no loss, duplication, reordering, invention), the inner writer holds exactly the accepted bytes in order (also for vectored writes), per-op bounds, TokioIo filled/initialised bookkeeping, EOF/Pending/error propagation, end of stream never invented (c18_eof_only_at_end: a read with room delivers nothing only once every byte has been delivered; scripted errors of 7 io::ErrorKinds); the same law for the sniffing rewind buffer as the auto server builds it (ReadVersion over any fragmentation, then any reads through the Rewind it returns: c18_sniffed_rewind). Tied to the real TokioIo (both directions, nested), Rewind, TlsBraid, client and server Stream wrappers by per-operation differential runs against a scripted inner stream, and to the real in-process DuplexStream pipe (bare and under the wrappers) with writes / vectored writes against back-pressure, the far end drained and compared, and to the real ReadVersion + Rewind pipeline over fragmented first bytes.",
   note="Trusted: Coq kernel+VM; hand model (forwarding adapters are identity in the model, so for them the theorem is only as strong as the correspondence run); absence of UB in the unsafe blocks is not expressible (R1); real TCP/Unix sockets under Braid are exercised by C01 only. No axioms.",
   technique="Coq proof (FIFO refinement invariant over op sequences) + per-op differential correspondence", ref="DESIGN.md 4/C18, 3.4"),
  "C13": dict(
@@ -33,7 +33,7 @@ CLAIMS = {
   note="Trusted: Coq kernel+VM; hand model of host.rs/http.rs/protocol choice; oracle O7 (http::Uri accessors: the harness decomposes URIs with the real crate; well-formedness of the decomposition is a stated hypothesis checked on every case); hyper's rendering of the final http::Request on the wire is R2 (C01). Genuine defect D13 fixed (2faf33b). No axioms.",
   technique="Coq proof (case analysis + header-list lemmas, monitor = spec) + differential correspondence", ref="DESIGN.md 4/C13, 3.5"),
  "C20": dict(
-  text="Coq theorems for every request record: the model of ValidateSNI's handle() satisfies the C20 monitor (forwarded only if the named host equals the SNI case-insensitively with port/userinfo ignored, then marked validated; rejected on mismatch or missing SNI; equal host never rejected; HTTP/2 falls back to Host), plus port-insensitivity of the host extraction and that the comparison is an equivalence. Tied to the real public ValidateSNI layer around a recording service over version x Host x URI x TLS-info products; the model's host extraction is compared with http::uri::Authority::host on every case.",
+  text="Coq theorems for every request record: the model of ValidateSNI's handle() satisfies the C20 monitor (forwarded only if the named host equals the SNI case-insensitively with port/userinfo ignored, then marked validated; rejected on mismatch or missing SNI; equal host never rejected; HTTP/2 falls back to Host; a validated flag already set on the incoming TLS info decides nothing for a request naming a host: c20_premarked_irrelevant), plus port-insensitivity of the host extraction and that the comparison is an equivalence. Tied to the real public ValidateSNI layer around a recording service over version x Host x URI x TLS-info (incl. a pre-set validated flag) products; the model's host extraction is compared with http::uri::Authority::host on every case.",
   note="Trusted: Coq kernel+VM; hand model of sni.rs handle(); oracle O7 (which strings parse as an Authority); that TlsConnectionInfo carries the handshake's real SNI is info/tls + rustls (R3). Genuine defect D11 fixed (0d420de). No axioms.",
   technique="Coq proof (case analysis, string lemmas) + differential correspondence", ref="DESIGN.md 4/C20, 3.7"),
  "C12": dict(
@@ -42,7 +42,7 @@ CLAIMS = {
   technique="Coq proof (case analysis over the connect state machine, monitor = spec) + differential correspondence with a real TLS peer", ref="DESIGN.md 4/C12, 3.6"),
 
  "C15": dict(
-  text="Coq theorem for EVERY pool configuration and EVERY finite operation history (issue/poll/cancel/finish/upgrade/dial outcomes/ready/close/background/tick, any length, any interleaving of any number of requests and origins): in every reachable state of the model every origin's idle list has at most max_idle_per_host entries (c15_bound), hence the executable monitor accepts every model trace (c15_monitor). Tied to the real ConnectionPoolService (public API, own transport/protocol/connection types, manual polling) by comparing events + pool snapshot + woken futures after every operation on seeded random histories with bursts, releases in any order, peers closing idle connections, max_idle in {0,1,2,3,8}; the monitor judges the implementation's own snapshots.",
+  text="Coq theorem for EVERY pool configuration and EVERY finite operation history (issue/poll/cancel/finish/upgrade/dial outcomes/ready/close/background/tick, any length, any interleaving of any number of requests and origins): in every reachable state of the model every origin's idle list has at most max_idle_per_host entries (c15_bound), hence the executable monitor accepts every model trace (c15_monitor); and, at the property's own observation point, after the closing procedure the number of connections of an origin that were created, never dropped and are not held by a request is at most max_idle_per_host, 0 with the pool disabled (c15_retained_after_drain, c15_monitor_drained: handle-accounting invariant + flush of every hand-back task). Tied to the real ConnectionPoolService (public API, own transport/protocol/connection types, manual polling) by comparing events + pool snapshot + woken futures after every operation on seeded random histories with bursts, releases in any order, peers closing idle connections, max_idle in {0,1,2,3,8}; the monitor judges the implementation's own snapshots.",
   note=POOLNOTE + " Genuine defect D7 (max_idle_per_host never enforced) found by this model and fixed (9bebd46).",
   technique="Coq proof (inductive invariant over all operation sequences) + differential correspondence with state snapshots", ref="DESIGN.md 4/C15, 3.1, appendix A, 9"),
 }
